@@ -465,6 +465,11 @@ func guardedAccesses(c *core.Ctx, fn *ssa.Function) []fieldAccess {
 				}
 			}
 		}
+		// the field itself is assigned only while the object is built, and this use only asks whether
+		// it was set (`v.subs == nil`): nothing of the guarded structure is read
+		if !acc.write && an.FieldWriteOnceHook(fa.X.Type(), fa.Field) && onlyNilTested(fa) {
+			return
+		}
 		out = append(out, acc)
 	})
 	return out
@@ -1084,6 +1089,14 @@ func runEvtImmut(c *core.Ctx) {
 	P := c.P
 	n := 0
 	for _, fn := range libFuncs(c) {
+		// a builder offered to the library's users — an exported method of *Event that fills in its own
+		// receiver (`ev.Sign(key)`) and that nothing in the module calls: no event the relay shares
+		// between sessions can reach it
+		if recvTypeName(fn) == "Event" && fn.Parent() == nil && len(callerIndex(c)[fn]) == 0 {
+			if obj, _ := fn.Object().(*types.Func); obj != nil && obj.Exported() {
+				continue
+			}
+		}
 		an.Instrs(fn, func(in ssa.Instruction) {
 			st, ok := in.(*ssa.Store)
 			if !ok {
@@ -1400,4 +1413,24 @@ func addrSuffix(v ssa.Value) string {
 		return addrSuffix(x.X)
 	}
 	return ""
+}
+
+// onlyNilTested: every use of the field address is a load whose value is only compared with nil.
+func onlyNilTested(fa *ssa.FieldAddr) bool {
+	if fa.Referrers() == nil || len(*fa.Referrers()) == 0 {
+		return false
+	}
+	for _, r := range *fa.Referrers() {
+		u, ok := r.(*ssa.UnOp)
+		if !ok || u.Op != token.MUL || u.Referrers() == nil || len(*u.Referrers()) == 0 {
+			return false
+		}
+		for _, r2 := range *u.Referrers() {
+			b, ok := r2.(*ssa.BinOp)
+			if !ok || (b.Op != token.EQL && b.Op != token.NEQ) || !(an.IsNilConst(b.X) || an.IsNilConst(b.Y)) {
+				return false
+			}
+		}
+	}
+	return true
 }
